@@ -431,6 +431,7 @@ type EnvHooks struct {
 	BeforeLock  func(in *Interp, ls *lockState, write bool)
 	AfterUnlock func(in *Interp, ls *lockState, write bool)
 	CondWait    func(in *Interp, caller *frame, cm *condModel, pos tokenPos)
+	LdbWriteFails func(in *Interp) bool
 	ChanSend    func(in *Interp, c *ChanObj, v Value, pos tokenPos) bool
 	Go          func(in *Interp, fr *frame, fn Value, args []Value, pos tokenPos) bool
 }
